@@ -610,7 +610,8 @@ def expand(body, macros, path):
             if kind == "expr" and not re.fullmatch(r'[\w$]+|"(?:\\.|[^"\\])*"', a):
                 a = "(" + a + ")"
             sub[pn] = a
-        text = re.sub(r"\$(\w+)", lambda mm: sub.get(mm.group(1), mm.group(0)), ent["body"])
+        # substitute `$param` outside string literals (a literal like "{:01$x}" is text, not a metavariable)
+        text = re.sub(r'"(?:\\.|[^"\\])*"|\$(\w+)', lambda mm: mm.group(0) if mm.group(1) is None else sub.get(mm.group(1), mm.group(0)), ent["body"])
         tail = re.match(r"\s*;", body[end:])
         body = body[:m.start()] + text + body[end + (tail.end() if tail else 0):]
     die("%s: macro expansion does not terminate" % path)
